@@ -166,6 +166,7 @@ type target struct {
 	funs     map[string]int    // callee text -> index of the *bytes.Buffer argument it writes to: the callee is a function parameter
 	// `args → (new buffer × result)` (an input of the definition, like an oracle, but depending on its arguments)
 	freeStmt map[string][]string // like free, for calls in statement position: the function parameter takes the call's arguments
+	calls    map[string]bool     // callee text -> the callee is a function parameter applied to the translated arguments (a struct literal argument is flattened into its fields); its results are bound by `a, b := callee(…)`
 	// and the result of everything that follows (`callee args rest : R`)
 	negoStr bool // Go `string` is `Nego.Str` (List Char, one Char per byte) and `[]string` is `List Nego.Str` in this target; string
 	// constants are `"…".toList`, `+` is `++`, `==` is list equality, and the string-library calls are the negotiation model's own
@@ -239,6 +240,29 @@ var targets = []target{
 		free: map[string][]string{"c.compressData": nil},
 		oracles: map[string]string{"internal.AlphabetNumeric.Uint32()": "maskNum"},
 		doc: "genFrame for a payload given as its bytes: the checks, the padded buffer, header back-fill and masking of an uncompressed frame; compressData is left uninterpreted"},
+	{pkg: "gws", fn: "Conn.doWrite", lean: "Conn_doWrite_head",
+		from: "if opcode != OpcodeCloseConnection && c.isClosed() {", to: "err = internal.WriteN(c.conn, frame.Bytes())",
+		skip:    []string{`verifSched("w.write", c)`},
+		oracles: map[string]string{"c.isClosed()": "closed"},
+		calls:   map[string]bool{"c.genFrame": true},
+		liveOut: []string{"frame"},
+		doc:     "doWrite under the lock, up to the transport write: nothing but a Close frame passes once the connection is closed; the frame is built by genFrame as a final frame, compressed iff the extension is negotiated, UTF-8 checked iff configured"},
+	{pkg: "gws", fn: "Broadcaster.writeFrame", lean: "Broadcaster_writeFrame_gate",
+		from: "if socket.isClosed() {", to: "var err = internal.WriteN(socket.conn, frame.Bytes())",
+		skip:    []string{`verifSched("b.write", socket)`},
+		oracles: map[string]string{"socket.isClosed()": "closed"},
+		liveOut: []string{},
+		doc:     "Broadcaster.writeFrame under the connection's lock: the shared frame is not written once the connection is closed"},
+	{pkg: "gws", fn: "flateWriter.Flush", lean: "flateWriter_Flush_stripTail",
+		from: "if n := buf.Len(); n >= 4", to: "var err = c.cb(", liveOut: []string{"buf"},
+		doc: "the removal of the sync-flush trailer 00 00 ff ff from the aggregated output of a streamed compressed message, before the last frame is built"},
+	{pkg: "gws", fn: "Conn.doWriteFile", lean: "Conn_doWriteFile_frame",
+		from: "if index > 0 {", to: "err = internal.WriteN(c.conn, frame.Bytes())",
+		skip:    []string{`verifSched("f.check", c)`},
+		oracles: map[string]string{"c.isClosed()": "closed"},
+		calls:   map[string]bool{"c.genFrame": true},
+		liveOut: []string{"frame"},
+		doc:     "the callback of doWriteFile up to the transport write: frame `index` of a streamed message (Continuation behind the first, FIN on the last, RSV1 on the first when compression is negotiated, the closed test)"},
 	{pkg: "gws", fn: "workerQueue.getJob", lean: "workerQueue_getJob",
 		skip: []string{"c.mu.Lock()", "defer c.mu.Unlock()"},
 		doc:  "the critical section of getJob (that it IS one Lock/defer Unlock region is the fact getJobLocks); jobs are numbers, the deque is the list of queued jobs"},
@@ -1303,6 +1327,13 @@ func (f *fn) lvalueName(e ast.Expr) string {
 		if _, ok := f.p.info.Defs[v]; ok {
 			return leanIdent(v.Name)
 		}
+	case *ast.CallExpr:
+		// `buf.Bytes()[i] = x`: the slice Bytes() returns shares the buffer's memory: an element store is a store into the buffer
+		if sel, ok := v.Fun.(*ast.SelectorExpr); ok && sel.Sel.Name == "Bytes" && len(v.Args) == 0 {
+			if t := f.typeOf(sel.X); t != nil && isBuffer(t) {
+				return f.lvalueName(sel.X)
+			}
+		}
 	case *ast.SelectorExpr:
 		if id, ok := v.X.(*ast.Ident); ok && f.copyAlias[id.Name] {
 			f.bad(e, "assignment to a field of a struct copy")
@@ -1376,6 +1407,12 @@ func (f *fn) assigned(n ast.Node) []string {
 			note(v.X)
 		case *ast.StarExpr:
 			note(v.X)
+		case *ast.CallExpr: // buf.Bytes()[i] = x
+			if sel, ok := v.Fun.(*ast.SelectorExpr); ok && sel.Sel.Name == "Bytes" && len(v.Args) == 0 {
+				if t := f.typeOf(sel.X); t != nil && isBuffer(t) {
+					note(sel.X)
+				}
+			}
 		case *ast.Ident:
 			if v.Name != "_" && !f.t.ignore[v.Name] && (!declared[v.Name] || f.alias[v.Name] != "") {
 				set[f.lvalueName(v)] = true
@@ -1783,6 +1820,61 @@ func (f *fn) block(list []ast.Stmt, k cont) string {
 					fmt.Fprintf(&sb, "let (%s, %s) := %s %s\n", mut, f.lvalueName(st.Lhs[0]), pname, strings.Join(args, " "))
 					return sb.String() + next()
 				}
+			}
+		}
+		if len(st.Rhs) == 1 && (len(st.Lhs) == 1 || len(st.Lhs) == 2) {
+			if c, ok := st.Rhs[0].(*ast.CallExpr); ok && f.t.calls[strings.Join(strings.Fields(f.src(c.Fun)), "")] {
+				ctext := strings.Join(strings.Fields(f.src(c.Fun)), "")
+				pname := leanIdent(strings.ReplaceAll(ctext, ".", "_"))
+				var args, tys []string
+				for _, a := range c.Args {
+					if cl, ok := a.(*ast.CompositeLit); ok {
+						if stt, ok := f.typeOf(cl).Underlying().(*types.Struct); ok {
+							for i := 0; i < stt.NumFields(); i++ {
+								fld := stt.Field(i)
+								lt, ok := f.tr.leanType(fld.Type())
+								if !ok {
+									f.bad(a, "struct literal argument with a field of unsupported type")
+								}
+								val := zeroOf(fld.Type(), lt)
+								for _, el := range cl.Elts {
+									kv, ok := el.(*ast.KeyValueExpr)
+									if !ok {
+										f.bad(a, "positional struct literal")
+									}
+									if id, ok := kv.Key.(*ast.Ident); ok && id.Name == fld.Name() {
+										val = f.expr(kv.Value)
+									}
+								}
+								args = append(args, val)
+								tys = append(tys, lt)
+							}
+							continue
+						}
+					}
+					args = append(args, f.expr(a))
+					tys = append(tys, f.lt(a))
+				}
+				var rtys, names []string
+				for _, l := range st.Lhs {
+					rty := ""
+					if id, ok := l.(*ast.Ident); ok && f.p.info.Defs[id] != nil {
+						rty, _ = f.tr.leanType(f.p.info.Defs[id].Type())
+						f.locals[id.Name] = true
+					} else {
+						rty = f.lt(l)
+					}
+					rtys = append(rtys, rty)
+					names = append(names, f.lvalueName(l))
+				}
+				lt := "(" + strings.Join(tys, " → ") + " → (" + strings.Join(rtys, " × ") + "))"
+				if _, seen := f.oracleSet[pname]; !seen {
+					f.oracleSet[pname] = lt
+					f.oracleOrd = append(f.oracleOrd, pname)
+				}
+				f.flush(&sb)
+				fmt.Fprintf(&sb, "let (%s) := %s %s\n", strings.Join(names, ", "), pname, strings.Join(args, " "))
+				return sb.String() + next()
 			}
 		}
 		if len(st.Lhs) == 2 && len(st.Rhs) == 1 {
